@@ -55,7 +55,7 @@ def gen(
     conds=(1.0, 1e2),
     info_kinds=("spd", "spd", "blockdiag", "diag"),
     world=(1.0,),
-    features=("parallel", "reversed", "permute", "ids", "multifixed", "custom", "rn_lm_offsets", "quat-signs", "lm_odo", "pure-translation-steps", "near-identity-orientations"),
+    features=("parallel", "reversed", "permute", "ids", "multifixed", "custom", "rn_lm_offsets", "quat-signs", "lm_odo", "pure-translation-steps", "near-identity-orientations", "info-scale", "edge-object-twice", "flag-types"),
     fixed_mode="wellposed",
     rot_step=1.0,
     custom_flavour="ana",
@@ -80,6 +80,11 @@ def gen(
     # expressed in a frame aligned with it up to calibration residue): rotation terms that are tiny next to the translations
     feats["near-identity-orientations"] = "near-identity-orientations" in features and base in ("se2", "se3") and g.choice([False, False, False, True])
     tiny = feats["near-identity-orientations"]
+    # one common factor on every information matrix (units of the weights): the problem and its solution are the same
+    info_scale = g.choice([1.0, 1.0, 1.0, 1.0, 1e-12, 1e-9, 1e-6, 1e6, 1e9]) if "info-scale" in features else 1.0
+    feats["info-scale"] = info_scale != 1.0
+    feats["edge-object-twice"] = "edge-object-twice" in features and g.choice([False] * 7 + [True])
+    feats["flag-types"] = "flag-types" in features and g.choice([False, False, True])
     if tiny:
         pr_ = 0.0
 
@@ -125,7 +130,10 @@ def gen(
     # ---- edges (indices into poses 0..npose-1, landmarks npose..)
     def info_for(n):
         ik = g.rnd.choice(list(info_kinds))
-        return _sym(g, n, cond, ik)
+        M = _sym(g, n, cond, ik)
+        if info_scale != 1.0:
+            M = (np.array(M) * info_scale).tolist()
+        return M
 
     edges = []
 
@@ -239,6 +247,10 @@ def gen(
         e["layout"] = rnd.choice(["C", "C", "C", "F", "strided", "readonly"])
         # ids may arrive as numpy integers (they hash and compare like Python ints)
         e["np_ids"] = rnd.random() < 0.15
+    if feats["flag-types"]:
+        # fixed flags as they come from callers: Python ints, numpy bools, numpy ints (truthiness is what counts)
+        for v in verts:
+            v["flag_type"] = rnd.choice(["bool", "int", "npbool", "npint"])
     if base == "se3" and "quat-signs" in features:
         # q and -q are the same rotation: store a random representative everywhere (measurements, offsets, vertices)
         def flip(pd):
@@ -249,6 +261,15 @@ def gen(
             flip(e.get("off"))
         for v in verts:
             flip(v["p"])
+    if feats["edge-object-twice"] and edges:
+        # the very same edge OBJECT listed twice (a measurement counted with double weight): "same_as" = index of the original
+        import copy as _copy
+
+        i = rnd.randrange(len(edges))
+        dup = _copy.deepcopy(edges[i])
+        pos = rnd.randint(i + 1, len(edges))
+        dup["same_as"] = i
+        edges.insert(pos, dup)
     return {
         "base": base,
         "verts": verts,
@@ -319,11 +340,32 @@ def build_edge(e):
     return cls(_ids(e), info, est)
 
 
+def _flag(v):
+    f = bool(v["fixed"])
+    t = v.get("flag_type", "bool")
+    if t == "int":
+        return int(f)
+    if t == "npbool":
+        return np.bool_(f)
+    if t == "npint":
+        return np.int64(int(f))
+    return f
+
+
+def build_edges(case):
+    edges = []
+    for e in case["edges"]:
+        if e.get("same_as") is not None:
+            edges.append(edges[e["same_as"]])
+        else:
+            edges.append(build_edge(e))
+    return edges
+
+
 def build(case):
     """Fresh live Graph from a materialised case."""
-    verts = [gs.Vertex(v["id"], gs.mk_pose(v["p"]), fixed=bool(v["fixed"])) for v in case["verts"]]
-    edges = [build_edge(e) for e in case["edges"]]
-    return gs.Graph(edges, verts)
+    verts = [gs.Vertex(v["id"], gs.mk_pose(v["p"]), fixed=_flag(v)) for v in case["verts"]]
+    return gs.Graph(build_edges(case), verts)
 
 
 def summarise(case):
